@@ -237,6 +237,10 @@ structure DTCodec (DT : Type) where
   `some d'` = accepted, `d'` being `d` made aware (a text without zone is taken as UTC).
   Carriers without naive values (C19's `AwareDT`) use the default. -/
   check : DT → Option DT := some
+  /-- `pos.utcoffset()` of an injected-error position that is a date-time or time (base.py, fix
+  823dec5): `false` = ValueError (a UTC offset of 24 h or more).  Carriers whose values all have a
+  printable offset use the default. -/
+  offsetOk : DT → Bool := fun _ => true
 
 /-- C19's law, used here as a named hypothesis -/
 def DtTextRoundTrip {DT : Type} (C : DTCodec DT) : Prop := ∀ d, C.parse (C.render d) = some d
@@ -677,14 +681,16 @@ def globalDefault (tbl : List OptionRow) (i : Nat) : Val DT :=
 def streamDefaults (g : Nat → Val DT) (sd : List (Nat × Val DT)) : Nat → Val DT :=
   fun i => (sd.lookup i).getD (g i)
 
-/-- an injected-error position must be a segment number or a time (base.py:158-161) -/
+/-- an injected-error position must be a segment number or a time with a usable UTC offset
+(base.py:158-166) -/
 def posOk : Pos DT → Bool
   | .nothing => false
-  | _ => true
+  | .at d => C.offsetOk d
+  | .num _ => true
 
 def errsOk (v : Val DT) : Bool :=
   match v with
-  | .errs l => l.all (fun e => posOk e.2)
+  | .errs l => l.all (fun e => posOk C e.2)
   | _ => true
 
 /-- a `vcorrupt` item: `int(item, 10)`, else `from_isodatetime(item)` (base.py:153-157) -/
@@ -693,7 +699,7 @@ def corruptItemOk (item : Bytes) : Bool :=
   | some _ => true
   | none =>
     match parseDT C item with
-    | .ok (some _) => true
+    | .ok (some d) => C.offsetOk d
     | _ => false
 
 def truthy (v : Val DT) : Bool :=
@@ -759,7 +765,7 @@ def astStep (tbl : List OptionRow) (o : Nat → Val DT) : Except Err (Nat → Va
 
 /-- base.py:153-190: injected-error positions, event limits, time spans -/
 def restOk (K : FilterConsts) (tbl : List OptionRow) (o : Nat → Val DT) : Bool :=
-  ["audioErrors", "manifestErrors", "textErrors", "videoErrors"].all (fun n => errsOk (getField tbl o n)) &&
+  ["audioErrors", "manifestErrors", "textErrors", "videoErrors"].all (fun n => errsOk C (getField tbl o n)) &&
   (match getField tbl o "videoCorruption" with
    | .list l => l.all (corruptItemOk C)
    | _ => true) &&
